@@ -147,7 +147,11 @@ def oracles(rec):
                 if dyn:
                     # C01/C12: refused as invalid, naming state and event; state unchanged; no hook
                     if res != f'errdyn:IT:{src}:{ev_name}':
-                        fail('C01', f'event {ev_name} has no transition from {src} but handle returned {res}')
+                        if res.startswith(f'errdyn:IT:{src}:') or res.startswith('errdyn:IT:'):
+                            # refused as invalid, but the error does not name the state / the declared event
+                            fail('C12', f'invalid-transition error for event {ev_name} in state {src} reads {res}')
+                        else:
+                            fail('C01', f'event {ev_name} has no transition from {src} but handle returned {res}')
                     if o['calls']:
                         fail('C01', 'hooks ran for an event with no transition')
                     if cur[1] != src:
@@ -228,6 +232,9 @@ def oracles(rec):
                             want = {'G': f'errdyn:GF:{k[2:]}:{e["event"]}', 'A': f'errdyn:AF:{k[2:]}:{e["event"]}'}[k[0]]
                             if res != want:
                                 fail(cat, f'expected {want}, handle returned {res}')
+                                if res.startswith('errdyn:') and res[7:9] != want[7:9]:
+                                    # the typed method fails with this kind; the wrapper reports another one
+                                    fail('C09', f'the typed method fails with {k}; handle reports {res}')
                     else:
                         want = f'errguard:{nm}:{e["event"]}:{k}'
                         if res != want:
@@ -328,6 +335,94 @@ def oracles(rec):
 
 # ---------------------------------------------------------------------------------------
 
+def _perm(names):
+    """an order-reversing bijection of a set of names onto itself"""
+    srt = sorted(set(names))
+    return dict(zip(srt, reversed(srt)))
+
+def rename_def(d):
+    """the same definition with states, superstates, events and hooks consistently renamed: within each
+    kind the names are permuted so that their lexicographic order is reversed"""
+    leaves, sups, events, hooks = [], [], [], {}
+    for it in d:
+        if it[0] == 'states':
+            leaves = D._leaf_names(it[1]); sups = D._sup_names(it[1])
+        if it[0] == 'events':
+            events = [b[0] for b in it[1]]
+    for n, (kind, payload) in T.hooks_used(d).items():
+        hooks.setdefault(n.rstrip('0123456789'), []).append(n)
+    m = {}
+    m.update(_perm(leaves)); m.update(_perm(sups)); m.update(_perm(events))
+    for grp in hooks.values():
+        m.update(_perm(grp))
+    def r(x):
+        return m.get(x, x)
+    def rb(items):
+        out = []
+        for b in items:
+            if b[0] in ('state', 'leaf'):
+                out.append((b[0], r(b[1]), b[2]))
+            elif b[0] == 'sup':
+                out.append(('sup', r(b[1]), b[2], rb(b[3])))
+            elif b[0] == 'initial':
+                out.append(('initial', r(b[1])))
+            else:
+                out.append(b)
+        return out
+    td = []
+    for it in d:
+        if it[0] == 'initial':
+            td.append(('initial', r(it[1])))
+        elif it[0] == 'states':
+            td.append(('states', rb(it[1])))
+        elif it[0] == 'events':
+            blocks = []
+            for (en, items) in it[1]:
+                ni = []
+                for e in items:
+                    if e[0] == 'transition':
+                        tr = []
+                        for t in e[1]:
+                            if t[0] == 'from':
+                                tr.append(('from', [r(x) for x in t[1]], t[2] if len(t) > 2 else True))
+                            elif t[0] == 'to':
+                                tr.append(('to', r(t[1])))
+                            elif t[0] in D.HOOKS:
+                                tr.append((t[0], [r(x) for x in t[1]], t[2] if len(t) > 2 else True))
+                            else:
+                                tr.append(t)
+                        ni.append(('transition', tr))
+                    elif e[0] in D.HOOKS:
+                        ni.append((e[0], [r(x) for x in e[1]], e[2] if len(e) > 2 else True))
+                    else:
+                        ni.append(e)
+                blocks.append((r(en), ni))
+            td.append(('events', blocks) + tuple(it[2:]))
+        else:
+            td.append(it)
+    return td, m
+
+def name_map(info_a, info_b, hook_map):
+    """every derived name of definition a mapped to the corresponding one of its twin b (same positions)"""
+    m = dict(hook_map)
+    for x, y in zip(info_a['states'], info_b['states']):
+        m[x['name']] = y['name']; m[x['snake']] = y['snake']
+    for x, y in zip(info_a['superstates'], info_b['superstates']):
+        pass
+    for x, y in zip(info_a['storage'], info_b['storage']):
+        m[x['state']] = y['state']; m[x['field']] = y['field']; m['set_' + x['snake'] + '_data'] = 'set_' + y['snake'] + '_data'
+    for x, y in zip(info_a['events'], info_b['events']):
+        m[x['name']] = y['name']; m[x['pascal']] = y['pascal']; m[x['method']] = y['method']
+    return m
+
+_IDENT = None
+def map_tokens(line, m):
+    import re
+    global _IDENT
+    if _IDENT is None:
+        _IDENT = re.compile(r'[A-Za-z_][A-Za-z0-9_]*')
+    return _IDENT.sub(lambda mo: m.get(mo.group(0), mo.group(0)), line)
+
 def gen_defs(tier, seed):
     cfg = TIERS[tier]
     rng = random.Random(seed * 7919 + 13)
@@ -350,7 +445,29 @@ def gen_defs(tier, seed):
             else:
                 d = T.t3_def(rng, force={'dynamic': (not feature) and rng.random() < 0.9})
                 fam = 'walk'
-            ds.append({'id': f'c{ci}m{k}', 'feature': feature, 'def': d, 'family': fam, 'crate': ci, 'mod': k})
+            base = {'id': f'c{ci}m{k}', 'feature': feature, 'def': d, 'family': fam, 'crate': ci, 'mod': k}
+            ds.append(base)
+            if any(it[0] == 'async' and it[1] for it in d):
+                # the sync expansion of the same definition (C15)
+                ds.append({'id': f'c{ci}m{k}s', 'feature': feature, 'def': [it for it in d if it[0] != 'async'], 'family': fam,
+                           'crate': ci, 'mod': 1000 + k, 'twin_of': base['id'], 'twin_kind': 'sync'})
+            def multi(dd):
+                for it in dd:
+                    if it[0] == 'events':
+                        for (_, items) in it[1]:
+                            lists = [e for e in items if e[0] in D.HOOKS] + [t for e in items if e[0] == 'transition' for t in e[1] if t[0] in D.HOOKS]
+                            if any(len(set(l[1])) >= 2 for l in lists):
+                                return True
+                            ev_g = [n for e in items if e[0] == 'guards' for n in e[1]]
+                            tr_g = [n for e in items if e[0] == 'transition' for t in e[1] if t[0] == 'guards' for n in t[1]]
+                            if ev_g and tr_g and set(ev_g) != set(tr_g):
+                                return True
+                return False
+            if k % 3 == 0 or fam == 'assign' or multi(d):
+                # a consistently renamed twin (C18)
+                td, mapping = rename_def(d)
+                ds.append({'id': f'c{ci}m{k}r', 'feature': feature, 'def': td, 'family': fam, 'crate': ci, 'mod': 2000 + k,
+                           'twin_of': base['id'], 'twin_kind': 'ren', 'hook_map': mapping})
         crates.append(ds)
     return crates
 
@@ -398,9 +515,10 @@ def run(tier, seed, work, repo):
             result['build_errors'].append({'crate': uname, 'stderr': berr[-3000:], 'definitions': [x['text'] for x in uds][:3]})
             continue
         scns = []
+        by_id = {x['id']: x for x in uds}
         for x in uds:
             info = x['info']
-            if 'err' in info:
+            if 'err' in info or x.get('twin_of'):
                 continue
             result['machines'] += 1
             shape = f"async={info['async']},concrete={info['concrete']},payload={any(e['payload'] for e in info['events'])},dynamic={info['dynamic']}"
@@ -422,7 +540,24 @@ def run(tier, seed, work, repo):
             for k, (fam, ops) in enumerate(fams):
                 scns.append({'sid': f"{x['id']}.{fam}{k}", 'family': fam, 'x': x, 'ops': ops})
         binary = os.path.join(root, f'target{uname}', 'debug', 't3crate')
-        impl, rc, err = T.run_impl_scenarios(binary, [(s['sid'], s['x']['mod'], s['ops']) for s in scns])
+        # the same scenarios on the twins: sync twin of an async machine (C15), renamed twin (C18)
+        twin_scns = []
+        for t in uds:
+            if not t.get('twin_of') or 'err' in t['info'] or t['twin_of'] not in by_id:
+                continue
+            base = by_id[t['twin_of']]
+            if t['twin_kind'] == 'ren':
+                t['nm'] = name_map(base['info'], t['info'], t['hook_map'])
+                t['inv'] = {v: k for k, v in t['nm'].items()}
+            for sc in scns:
+                if sc['x'] is not base or sc['family'] == 'abandon':
+                    continue
+                if any(o.split()[0] in ('habandon', 'tabandon', 'hnopoll', 'tnopoll') for o in sc['ops']):
+                    continue
+                ops = sc['ops'] if t['twin_kind'] == 'sync' else [map_tokens(o, t['nm']) for o in sc['ops']]
+                twin_scns.append({'sid': sc['sid'] + '.' + t['twin_kind'], 'of': sc, 'twin': t, 'ops': ops})
+        impl, rc, err = T.run_impl_scenarios(binary, [(s['sid'], s['x']['mod'], s['ops']) for s in scns] +
+                                             [(s['sid'], s['twin']['mod'], s['ops']) for s in twin_scns])
         model = T.run_model_scenarios([(s['sid'], s['x']['feature'], s['x']['def'], s['ops']) for s in scns])
         if rc != 0:
             result['build_errors'].append({'crate': uname, 'stderr': 'harness binary failed: ' + err})
@@ -448,8 +583,34 @@ def run(tier, seed, work, repo):
             if len(result['samples']) < 4 and s['family'] in ('assign', 'abandon', 'walk') and len(il) > 3:
                 if not any(x['family'] == s['family'] for x in result['samples']):
                     result['samples'].append({'family': s['family'], 'dsl': rec['dsl'][:500], 'ops': s['ops'][:4], 'observed': il[:4]})
+        for ts in twin_scns:
+            a = impl.get(ts['of']['sid'], [])
+            b = impl.get(ts['sid'], [])
+            kind = ts['twin']['twin_kind']
+            if kind == 'ren':
+                b = [map_tokens(l, ts['twin']['inv']) for l in b]
+            result['twin_scenarios'] = result.get('twin_scenarios', 0) + 1
+            if a != b:
+                k = next((j for j, (p, q) in enumerate(zip(a, b)) if p != q), min(len(a), len(b)))
+                prop = 'C15' if kind == 'sync' else 'C18'
+                what = ('the async machine and the sync expansion of the same definition disagree' if kind == 'sync' else
+                        'the machine and its consistently renamed twin disagree (after mapping the names back)')
+                result['oracle_failures'].append({
+                    'property': prop, 'op_index': k, 'what': what, 'sid': ts['sid'], 'family': ts['of']['family'],
+                    'dsl': ts['of']['x']['text'], 'feature': ts['of']['x']['feature'], 'prefix': D.to_prefix(ts['of']['x']['def']),
+                    'ops': ts['of']['ops'][:k + 1], 'observed': a[k] if k < len(a) else '<missing>',
+                    'twin_dsl': ts['twin']['text'], 'twin_observed': b[k] if k < len(b) else '<missing>'})
         shutil.rmtree(os.path.join(root, f'target{uname}'), ignore_errors=True)
     shutil.rmtree(root, ignore_errors=True)
+    # a C01 failure on a definition that uses superstates is a C07 failure too (the relation the machine
+    # follows is not the one the hierarchy declares)
+    extra = []
+    for f in result['oracle_failures']:
+        if f['property'] == 'C01' and 'superstate' in f['dsl']:
+            g = dict(f)
+            g['property'] = 'C07'
+            extra.append(g)
+    result['oracle_failures'] += extra
     result['n_model_diffs'] = len(result['model_diffs'])
     result['n_oracle_failures'] = len(result['oracle_failures'])
     result['model_diffs'] = sorted(result['model_diffs'], key=lambda d: (len(d['dsl']), len(d['ops'])))[:60]
